@@ -64,3 +64,41 @@ pub fn fasta_named(records: &[(String, Vec<u8>)]) -> Vec<u8> {
     }
     out
 }
+
+/// FASTA text in one of four layouts (records r0, r1, ...): 0 = one line each, LF; 1 = lines of 5, LF;
+/// 2 = lines of 4, CRLF; 3 = one line, CRLF, descriptions in the headers, no final line end.
+pub fn fasta_layout(records: &[Vec<u8>], layout: u64) -> Vec<u8> {
+    let (width, eol): (usize, &[u8]) = match layout % 4 {
+        0 => (usize::MAX, b"\n"),
+        1 => (5, b"\n"),
+        2 => (4, b"\r\n"),
+        _ => (usize::MAX, b"\r\n"),
+    };
+    let mut out = Vec::new();
+    for (i, r) in records.iter().enumerate() {
+        if layout % 4 == 3 {
+            out.extend_from_slice(format!(">r{i} len={} some text", r.len()).as_bytes());
+        } else {
+            out.extend_from_slice(format!(">r{i}").as_bytes());
+        }
+        out.extend_from_slice(eol);
+        if r.is_empty() {
+            continue;
+        }
+        for chunk in r.chunks(width.min(r.len())) {
+            out.extend_from_slice(chunk);
+            out.extend_from_slice(eol);
+        }
+    }
+    if layout % 4 == 3 && !records.is_empty() && !records.last().unwrap().is_empty() {
+        for _ in 0..eol.len() {
+            out.pop();
+        }
+    }
+    out
+}
+
+/// layout derived from the content, so that the same records are always written the same way
+pub fn natural_layout(records: &[Vec<u8>]) -> u64 {
+    crate::explore::hash64(&records)
+}
